@@ -209,31 +209,98 @@ def _rd_roles(f):
 
 
 def s3(chk: Check, proj: Project, m) -> None:
-    chk.rule("S3", "render_dependencies returns str for str, SafeString for SafeString, bytes for bytes")
+    chk.rule("S3", "render_dependencies returns str for str, SafeString for SafeString, bytes for bytes (abstract evaluation of the returned expression for the three input types)")
     f = m.func("render_dependencies")
     chk.analysed(fkey(m, f))
     R = _rd_roles(f)
-    p0, W, SF = R["p0"], R["work"], R["safe"]
-    if not (W and SF):
-        chk.undecided("S3", "dependencies:render_dependencies:roles", m.loc(f), f"working-bytes / safe-flag variables not identified ({R})")
+    p0, W = R["p0"], R["work"]
+    if not W:
+        chk.undecided("S3", "dependencies:render_dependencies:roles", m.loc(f), f"working-bytes variable not identified ({R})")
         return
     rets = [s for s in stmts(f) if isinstance(s, ast.Return) and s.value is not None]
     if len(rets) != 1:
         chk.undecided("S3", "dependencies:render_dependencies:returns", m.loc(f), f"{len(rets)} return statements")
         return
+    SAFE_T = ("SafeString", "SafeData", "SafeText")
+
+    def cond(e: ast.AST, case: str, env: Dict[str, Optional[str]], depth: int = 0) -> Optional[bool]:
+        if depth > 6:
+            return None
+        if isinstance(e, ast.UnaryOp) and isinstance(e.op, ast.Not):
+            c = cond(e.operand, case, env, depth + 1)
+            return None if c is None else not c
+        if isinstance(e, ast.BoolOp):
+            vs = [cond(v, case, env, depth + 1) for v in e.values]
+            if isinstance(e.op, ast.And):
+                return False if any(v is False for v in vs) else (None if any(v is None for v in vs) else True)
+            return True if any(v is True for v in vs) else (None if any(v is None for v in vs) else False)
+        if isinstance(e, ast.Call) and norm(e.func) == "isinstance" and len(e.args) == 2 and norm(e.args[0]) == p0:
+            ts = [norm(x) for x in (e.args[1].elts if isinstance(e.args[1], ast.Tuple) else [e.args[1]])]
+            res = False
+            for t in ts:
+                t = t.split(".")[-1]
+                if t == "str":
+                    res = res or case in ("str", "safe")
+                elif t in SAFE_T:
+                    res = res or case == "safe"
+                elif t in ("bytes", "bytearray"):
+                    res = res or case == "bytes"
+                else:
+                    return None
+            return res
+        if isinstance(e, ast.Name):
+            d = [v for _s, v in assignments(f, e.id) if v is not None]
+            if len(d) == 1:
+                return cond(d[0], case, env, depth + 1)
+        return None
+
+    def ty(e: ast.AST, case: str, env: Dict[str, Optional[str]]) -> Optional[str]:
+        if isinstance(e, ast.Name):
+            if e.id == W:
+                return "bytes"
+            if e.id == p0:
+                return case
+            return env.get(e.id)
+        if isinstance(e, ast.Call):
+            fn = norm(e.func)
+            if fn == "cast" and len(e.args) == 2:
+                return ty(e.args[1], case, env)
+            if isinstance(e.func, ast.Attribute) and e.func.attr == "decode":
+                return "str" if ty(e.func.value, case, env) == "bytes" else None
+            if isinstance(e.func, ast.Attribute) and e.func.attr == "encode":
+                return "bytes" if ty(e.func.value, case, env) in ("str", "safe") else None
+            if fn.split(".")[-1] in ("mark_safe",) + SAFE_T and e.args:
+                return "safe" if ty(e.args[0], case, env) in ("str", "safe") else None
+            if fn == "str" and e.args:
+                return "str" if ty(e.args[0], case, env) in ("str", "safe") else None
+            return None
+        if isinstance(e, ast.IfExp):
+            c = cond(e.test, case, env)
+            if c is None:
+                a_, b_ = ty(e.body, case, env), ty(e.orelse, case, env)
+                return a_ if a_ == b_ else None
+            return ty(e.body if c else e.orelse, case, env)
+        return None
+
     rv = rets[0].value
-    if isinstance(rv, ast.Call) and norm(rv.func) == "cast" and len(rv.args) == 2:
-        rv = rv.args[1]
-    outv = norm(rv)
-    defs = assignments(f, outv)
-    texts = [norm(v) for _s, v in defs if v is not None]
-    dec = any(t == f"{W}.decode() if isinstance({p0}, str) else {W}" for t in texts)
-    safe = any(t == f"mark_safe({outv}) if {SF} else {outv}" for t in texts)
-    order_ok = len(defs) == 2 and ".decode()" in texts[0] and "mark_safe" in texts[1]
-    ok = dec and safe and order_ok
-    chk.ob("S3", "dependencies:render_dependencies:type-round-trip", m.loc(rets[0]), ok,
-           "decode iff the input was str, then mark_safe iff it was a SafeString; bytes are returned as bytes" if ok else
-           f"the returned value is built as {texts}: the str / SafeString / bytes type of the input is not restored")
+    outcome: Dict[str, Optional[str]] = {}
+    for case in ("str", "safe", "bytes"):
+        env: Dict[str, Optional[str]] = {}
+        # the definitions of the variables the returned expression uses, in source order (straight-line tail of the function)
+        used = {x.id for x in ast.walk(rv) if isinstance(x, ast.Name)} - {W, p0}
+        for v in sorted(used):
+            for st, val in sorted(assignments(f, v), key=lambda t: t[0].lineno):
+                if val is not None and isinstance(st, ast.Assign) and st in f.body:
+                    env[v] = ty(val, case, env)
+        outcome[case] = ty(rv, case, env)
+    names = {"str": "plain str", "safe": "SafeString", "bytes": "bytes"}
+    if any(v is None for v in outcome.values()):
+        chk.undecided("S3", "dependencies:render_dependencies:type-round-trip", m.loc(rets[0]), f"type of the returned expression not evaluable: {outcome}")
+    else:
+        bad = [c for c in outcome if outcome[c] != c]
+        chk.ob("S3", "dependencies:render_dependencies:type-round-trip", m.loc(rets[0]), not bad,
+               "plain str -> plain str, SafeString -> SafeString, bytes -> bytes" if not bad else
+               f"for a {names[bad[0]]} input the function returns a {names[outcome[bad[0]]]}: " + ("a plain (untrusted) string comes back marked safe and is no longer auto-escaped by {{ value }}" if bad[0] == "str" and outcome[bad[0]] == "safe" else "the input's type is not restored"))
     enc = [s for s, v in assignments(f, W) if v is not None and norm(v) == f"{p0}.encode()"]
     okk = bool(enc) and any(pol and t == f"isinstance({p0}, str)" for t, pol in cond_atoms(enc[0]))
     chk.ob("S3", "dependencies:render_dependencies:encode-iff-str", m.loc(enc[0]) if enc else m.loc(f), okk, "the input is encoded only when it is a str")
